@@ -104,6 +104,58 @@ func (se *cfsSess) readAll(name string, add func(op, ob, d string)) {
 	add(fmt.Sprintf("ORead %d %d", h, n), fmt.Sprintf("VData %s %s", c08Bytes(buf[:got]), gBool(eof)), fmt.Sprintf("read all of %q", name))
 }
 
+// recRead/recSeek/recWrite perform one recorded operation on handle h (same encoding as randomOp).
+func (se *cfsSess) recRead(h, n int, add func(op, ob, d string)) {
+	buf := make([]byte, n)
+	got, eof := 0, false
+	var rerr error
+	for got < n {
+		c, err := se.hs[h].Read(buf[got:])
+		got += c
+		if err == io.EOF {
+			eof = true
+			break
+		}
+		if err != nil {
+			rerr = err
+			break
+		}
+		if c == 0 {
+			rerr = fmt.Errorf("read returned 0 bytes without error")
+			break
+		}
+	}
+	op := fmt.Sprintf("ORead %d %d", h, n)
+	if rerr != nil {
+		add(op, c08ErrObs(rerr), fmt.Sprintf("read h%d %d", h, n))
+		return
+	}
+	add(op, fmt.Sprintf("VData %s %s", c08Bytes(buf[:got]), gBool(eof)), fmt.Sprintf("read h%d %d", h, n))
+}
+
+func (se *cfsSess) recSeek(h, off int, add func(op, ob, d string)) {
+	pos, err := se.hs[h].Seek(int64(off), 0)
+	op := fmt.Sprintf("OSeek %d %d false 0", h, off)
+	if err != nil {
+		add(op, c08ErrObs(err), fmt.Sprintf("seek h%d %d", h, off))
+		return
+	}
+	add(op, fmt.Sprintf("VNat %d", pos), fmt.Sprintf("seek h%d %d", h, off))
+}
+
+func (se *cfsSess) recWrite(r *vRand, h, n int, add func(op, ob, d string)) {
+	data := make([]byte, n)
+	for j := range data {
+		data[j] = byte(1 + r.Intn(250))
+	}
+	wn, err := se.hs[h].Write(data)
+	ob := fmt.Sprintf("VNat %d", wn)
+	if err != nil {
+		ob = c08ErrObs(err)
+	}
+	add(fmt.Sprintf("OWrite %d %s", h, c08Bytes(data)), ob, fmt.Sprintf("write h%d %d bytes", h, n))
+}
+
 // firstTouch opens a file that came with the loaded manifest and makes one specific first mutation
 // or read on it (the state "loaded, never touched" is left by the first write, so random histories
 // rarely exercise each kind of first operation on it).
@@ -118,6 +170,32 @@ func (se *cfsSess) firstTouch(r *vRand, name string, add func(op, ob, d string))
 	h := len(se.hs) - 1
 	add(op, fmt.Sprintf("VNat %d", h), fmt.Sprintf("open %q", name))
 	size := int(f.Size())
+	if size >= 3 && r.Chance(1, 4) {
+		// two handles on the never-touched file: the second one reads a byte somewhere inside (so its
+		// position is cached inside a stored segment), then the first overwrites from at or before that
+		// point through the end of the file (or a bit further / shorter), then the second continues
+		// without seeking again
+		f2, err := se.fs.OpenFile(name, os.O_RDWR, 0)
+		op2 := fmt.Sprintf("OOpen %s (FL 2 false false false false false)", gStr(name))
+		if err != nil {
+			add(op2, c08ErrObs(err), fmt.Sprintf("open %q", name))
+			return
+		}
+		se.hs = append(se.hs, f2)
+		h2 := len(se.hs) - 1
+		add(op2, fmt.Sprintf("VNat %d", h2), fmt.Sprintf("open %q", name))
+		k := 1 + r.Intn(size-2)
+		se.recSeek(h2, k, add)
+		se.recRead(h2, 1, add)
+		m := 1 + r.Intn(k)
+		se.recSeek(h, m, add)
+		se.recWrite(r, h, size-m+[]int{0, 0, 0, 1, -1}[r.Intn(5)], add)
+		se.recRead(h2, size, add)
+		se.recWrite(r, h2, 1+r.Intn(2), add)
+		se.tag("first-two-handle-tail-overwrite")
+		se.readAll(name, add)
+		return
+	}
 	switch r.Intn(5) {
 	case 0, 1: // truncate somewhere inside (or at the ends of) the file
 		n := r.Intn(size + 2)
